@@ -33,9 +33,14 @@ def gen_cases(ctx, n=None):
     n = n or (5 if ctx.tier == "quick" else 100)
     n_max = 5 if ctx.tier == "quick" else 8
     out = []
-    for _ in range(n):
+    for k_ in range(n):
         spec = K.gen_spec(rng, n_max=n_max, tier=ctx.tier, full_frac=0.0)
         spec["lib_seed"] = int(rng.integers(0, 2**31))
+        if k_ % 5 == 1:
+            # very precise data: every ln-likelihood of the library lies far below the exp() range of a double (about -1e5..-1e6), in
+            # either unit -- the acceptance rule only ever sees differences to the maximum
+            for sv in spec["surveys"]:
+                sv["err"] = [e / 64 for e in sv["err"]]
         if spec["theta"]["s"] == 0.0:  # a non-zero jitter, so that the unit of the `s` column matters on every path
             spec["theta"]["s"] = 0.625 * (1.0 if spec["data_unit"] == "km/s" else 1000.0)
         out.append(spec)
